@@ -14,11 +14,11 @@
 (*   SameObject   same response class, same object kind, same MIME type (where the protocol *)
 (*                carries one), with or without the trailing slash                          *)
 (*   SameLinks    same link entries in the same order: kind (link/search), display name,    *)
-(*                canonical target (Views!Canon).  Named after the model's explanation when *)
-(*                there is one: SameLinks_EmptySelectorHref                                 *)
+(*                canonical target (Views!Canon); the clause name carries the first         *)
+(*                differing row (SameLinks@<name>)                                          *)
 (*   SameInfo     unless abstract_entries = unsupported: identical sequences incl. info     *)
-(*   SameSearch   got = s (SameSearch_FormDecodeReplace / SameSearch_PlusFlagAmbiguity when *)
-(*                the model predicts exactly the observed deviation)                        *)
+(*   SameSearch   got = s (SameSearch_PlusFlagAmbiguity when the model predicts exactly    *)
+(*                the observed deviation)                                                   *)
 (*   ClientMismatch  a request is not Links!Follow of the model's target (machinery)        *)
 (* Design level (DRIFT): rows that stem from the site's .Links entries are rendered as      *)
 (* Target(p, entry); the search string that arrives is SearchReaches(p, ..).                *)
@@ -59,9 +59,7 @@ LinksClause(p, v1, v2) ==
     IN IF d = {} THEN "SameLinks@" \o (IF Len(a) > n THEN a[n + 1].name ELSE b[n + 1].name)
        ELSE LET i == CHOOSE x \in d : \A y \in d : x <= y
                 nm == b[i].name
-            IN IF a[i].name = nm /\ EntNamed(nm) # {} /\ EmptySelectorHref(p, EntOf(nm))
-               THEN "SameLinks_EmptySelectorHref@" \o nm
-               ELSE "SameLinks@" \o nm
+            IN "SameLinks@" \o nm
 
 RowsAsModel(e) ==
     \A i \in 1..Len(e.entries) :
@@ -107,7 +105,6 @@ DoSearch(e) ==
     /\ verdict' = IF ~SearchInScope(e.s) THEN "unmatched"
                   ELSE IF ~SearchClientOk(e) THEN "ClientMismatch"
                   ELSE IF e.got = e.s THEN "ok"
-                  ELSE IF e.got = Reaches(e) /\ FormDecodeReplace(e.p, e.s) THEN "SameSearch_FormDecodeReplace"
                   ELSE IF e.got = Reaches(e) /\ PlusFlagAmbiguity(e.p, e.s) THEN "SameSearch_PlusFlagAmbiguity"
                   ELSE "SameSearch"
     /\ (IF e.got = Reaches(e) /\ (Len(e.chain) >= 1 => e.chain[1].loc = Parse(Rq(e.chain[1].line, "", TRUE)).redirect)
